@@ -61,6 +61,63 @@ def run(ctx):
     for i, rng in ctx.cases("random", ctx.n(6000, 120000)):
         random_case(ctx, rng, part)
     corpus(ctx, part)
+    from wavespectra.partition import partition as pmod
+    for i, rng in ctx.cases("via_ptm3", ctx.n(2500, 50000)):
+        via_ptm3(ctx, rng, pmod)
+
+
+def via_ptm3(ctx, rng, pmod):
+    """The watershed as the partition methods see it: np_ptm3 with every detected partition requested, on strictly
+    positive spectra, gives back the basins - one map is rebuilt from the partitions and held against the same
+    structural model (whatever the Python layer does between the call and the native routine)."""
+    rec = ctx.rec
+    small = rng.random() < 0.6
+    nk = int(rng.integers(1, 6 if small else 26))
+    nth = int(rng.integers(1, 6 if small else 26))
+    ihmax = int(rng.choice([2, 3, 5, 10, 50, 100, 100, 1000]))
+    kind = str(rng.choice(["int", "smooth", "edge_peaks", "real"]))
+    if kind == "int":
+        spec = rng.integers(1, int(rng.integers(3, 8)), (nk, nth)).astype(np.float64)
+    elif kind == "real":
+        spec = rng.random((nk, nth)) + 0.05
+    else:
+        x = np.arange(nk)[:, None]
+        y = np.arange(nth)[None, :]
+        spec = np.full((nk, nth), 0.01)
+        for _ in range(int(rng.integers(1, 4))):
+            # "edge_peaks": systems peaking in the lowest / highest frequency row (long swell, young wind sea)
+            cx = float(rng.choice([0.0, nk - 1.0])) if kind == "edge_peaks" else float(rng.uniform(0, nk))
+            cy = rng.uniform(0, nth)
+            dy = np.minimum(np.abs(y - cy), nth - np.abs(y - cy))
+            spec = spec + rng.uniform(0.2, 5) * np.exp(-((x - cx) / rng.uniform(0.7, 4)) ** 2 - (dy / rng.uniform(0.7, 4)) ** 2)
+    spec32 = np.ascontiguousarray(spec.astype(np.float32))
+    spec = spec32.astype(np.float64)
+    lv, near = W.levels(spec32, ihmax)
+    key = "ptm3|%s|%s|ihmax=%d" % (kind, "tiny" if nk * nth <= 16 else ("small" if nk * nth <= 144 else "large"), ihmax)
+    if lv is None or near or spec.min() <= 0:
+        rec.skip("map_via_ptm3", "constant spectrum or a value on a rounding boundary of the level discretisation")
+        return
+    f = 0.04 * 1.1 ** np.arange(nk)
+    th = np.arange(nth) * (360.0 / nth)
+    try:
+        out = np.asarray(pmod.np_ptm3(spec, spec, f, th, parts=None, ihmax=ihmax))
+    except Exception as e:
+        rec.bad("map_via_ptm3", key, {"spec": spec, "ihmax": ihmax, "raised": repr(e)[:300]}, "ptm3-raises")
+        return
+    if out.ndim != 3 or out.shape[1:] != spec.shape:
+        rec.bad("map_via_ptm3", key, {"spec": spec, "ihmax": ihmax, "out_shape": list(out.shape)}, "map-shape")
+        return
+    owners = (out != 0).sum(0)
+    lab = np.zeros(spec.shape, dtype=np.int64)
+    k = 0
+    for p in out:
+        if p.any():
+            k += 1
+            lab[p != 0] = k
+    if (owners != 1).any():
+        rec.bad("map_via_ptm3", key, {"spec": spec, "ihmax": ihmax, "bins_in_no_partition": int((owners == 0).sum()), "bins_in_two": int((owners > 1).sum())}, "map-unlabelled-bin")
+        return
+    judge(rec, "map_via_ptm3", key, spec32, ihmax, lv, lab)
 
 
 def corpus(ctx, part):
